@@ -43,7 +43,8 @@ Mix(i, m) == ((i * 7919 + GenSeed * 104729 + 13) % 1000003) % m
 
 \* quick: (a) every valid shape sequence of length 3 with a seed-chosen advance pattern;
 \*        (b) every advance pattern of length 4 on seed-chosen shape baselines;
-\*        (c) every code point class on a fixed shape list.
+\*        (c) every code point class on a fixed shape list;
+\*        (d) the nesting sweep (outer transform x inner composite kind x outline shape).
 \* thorough: every valid shape sequence of length 3 x every advance pattern of length 3, plus (b), (c) and
 \*        every valid shape sequence of length 4 with a seed-chosen advance pattern.
 Seqs3 == SetToSeq({q \in ShapeSeqs(3) : ValidSeq(q)})
@@ -53,10 +54,19 @@ Adv4 == SetToSeq(AdvSeqs(4))
 Baselines4 == << <<"S", "C", "E", "SN">>, <<"E", "S", "CE", "C">>, <<"S", "S2", "C2", "CN">> >>
 NBase == IF GenMode = "quick" THEN 2 ELSE 3      \* quick: two of the baselines, rotated by the seed
 
-CaseOf(kind, idx, shapes, adv, cp) ==
-    [id |-> kind \o "-" \o ToString(idx), shapes |-> shapes, adv |-> adv, cp |-> cp,
+\* The transform an outer ("CN") composite puts on the composite it refers to, crossed with the inner
+\* composite's own placement (offset "C", flip + scale "CF", rotation "CR", two components "C2"):
+\*   off plain offset, rot45 rotation by 45 degrees (181/256 entries), rot90, skew (x += y/2), flip, scale
+NestXf == <<"off", "rot45", "rot90", "skew", "flip", "scale">>
+\* Axis set-up of variable cases: plain wght axis, wght with a non-identity <map>, the same plus a point axis
+\* (min = default = max, which gets no fvar record), point axis without a map
+AxCfg == <<"plain", "mapped", "point+mapped", "point">>
+
+CaseOfX(kind, idx, shapes, adv, cp, nx) ==
+    [id |-> kind \o "-" \o ToString(idx), shapes |-> shapes, adv |-> adv, cp |-> cp, nx |-> nx,
      variable |-> Mix(idx, 2) = 1, kern |-> Mix(idx + 1, 3) = 0, fea |-> Mix(idx + 2, 3) = 0,
-     vertical |-> Mix(idx + 3, 4) = 0]
+     vertical |-> Mix(idx + 3, 4) = 0, ax |-> AxCfg[Mix(idx + 5, Len(AxCfg)) + 1]]
+CaseOf(kind, idx, shapes, adv, cp) == CaseOfX(kind, idx, shapes, adv, cp, NestXf[Mix(idx + 4, Len(NestXf)) + 1])
 CpFor(idx, n) == [i \in 1..n |-> CpClasses[Mix(idx + 17 * i, Len(CpClasses)) + 1]]
 
 CasesA == [i \in Idx(Seqs3) |-> CaseOf("A", i, Seqs3[i], Adv3[Mix(i, Len(Adv3)) + 1], CpFor(i, 3))]
@@ -78,8 +88,19 @@ CasesT == [i \in 1..(Len(Seqs3) * Len(Adv3)) |->
                  a == ((i - 1) \div Len(Seqs3)) + 1
              IN CaseOf("T", i, Seqs3[q], Adv3[a], CpFor(i, 3))]
 CasesU == [i \in Idx(Seqs4) |-> CaseOf("U", i, Seqs4[i], Adv4[Mix(i, Len(Adv4)) + 1], CpFor(i, 4))]
-GenCases == IF GenMode = "quick" THEN CasesA \o CasesB \o CasesC
-            ELSE CasesT \o CasesB \o CasesC \o CasesU
+\* (d) nesting sweep: every outline shape x every inner composite kind x every outer transform, and the
+\*     two-component inner composite x every outer transform
+OutlineShapes == <<"S", "SN", "Q", "S2">>
+InnerKinds == <<"C", "CF", "CR">>
+CasesD == [i \in 1..(Len(OutlineShapes) * Len(InnerKinds) * Len(NestXf)) |->
+             LET o == ((i - 1) % Len(OutlineShapes)) + 1
+                 k == (((i - 1) \div Len(OutlineShapes)) % Len(InnerKinds)) + 1
+                 x == ((i - 1) \div (Len(OutlineShapes) * Len(InnerKinds))) + 1
+             IN CaseOfX("D", i, <<OutlineShapes[o], InnerKinds[k], "CN">>, Adv3[Mix(i, Len(Adv3)) + 1], CpFor(i, 3), NestXf[x])]
+          \o [i \in 1..Len(NestXf) |->
+                CaseOfX("E", i, <<"S", "S2", "C2", "CN">>, Adv4[Mix(i, Len(Adv4)) + 1], CpFor(i, 4), NestXf[i])]
+GenCases == IF GenMode = "quick" THEN CasesA \o CasesB \o CasesC \o CasesD
+            ELSE CasesT \o CasesB \o CasesC \o CasesU \o CasesD
 
 VARIABLE gi
 GenInit == gi \in Idx(GenCases)
